@@ -82,7 +82,7 @@ func c12DoInProcess(req *c12Req, shared *bsdiff.DiffContext) *c12Resp {
 	var ctrls []c12Ctrl
 	d := time.Duration(req.DeadlineSec) * time.Second
 	if d <= 0 {
-		d = 60 * time.Second
+		d = 180 * time.Second
 	}
 	cls, msg := lib.WithDeadline(d, func() error {
 		return dc.Do(bytes.NewReader(req.Old), bytes.NewReader(req.New), func(m proto.Message) error {
@@ -188,7 +188,7 @@ func (r *c12Runner) Do(req *c12Req) (*c12Resp, error) {
 		}
 	}
 	if req.DeadlineSec == 0 {
-		req.DeadlineSec = 60
+		req.DeadlineSec = 180 // small inputs take milliseconds; the deadline only has to tell a hang from a loaded machine
 	}
 	if err := r.enc.Encode(req); err != nil {
 		msg := "child died before the request: " + r.tail.String()
